@@ -23,6 +23,10 @@ THEOREMS = [
     "Optyx.Props.C02.grad_hasDerivAt",
     "Optyx.Props.C02.grad_absent",
     "Optyx.Props.C02.rulesIter_eq",
+    "Optyx.Props.C02.grad_hasDerivAt_of_source_equations",
+    "Optyx.Props.C02.source_equations_solvable",
+    "Optyx.Props.GradTie.grad_step",
+    "Optyx.Props.GradTie.step_unique",
 ]
 ASSUMPTIONS = [
     "regular points only (Regular e ρ σ): the singular set is the subject of C19",
